@@ -23,9 +23,24 @@ def scratch_dir():
     os.makedirs(d, exist_ok=True)
     return d
 
-def load_program(dump=True):
-    """dump the MIR of /repo's current working tree (unless VERIF_MIR_DIR points at an existing dump) and index it"""
+_VARIANTS = {}
+def load_program(dump=True, variant=None):
+    """dump the MIR of /repo's current working tree (unless VERIF_MIR_DIR points at an existing dump) and index it.
+    variant='chrono': mpd_client built with its optional `chrono` feature (a second program, used by C12 only)"""
     global _PROG
+    if variant:
+        if variant not in _VARIANTS:
+            import tempfile, shutil
+            P = program.Program()
+            P.features = [variant]
+            tmp = tempfile.mkdtemp(prefix='mir-%s-' % variant, dir=scratch_dir())
+            try:
+                P.dump_mir(tmp, target=os.path.join(scratch_dir(), 'ws-target'))
+                P.load(tmp)
+            finally:
+                shutil.rmtree(tmp, ignore_errors=True)
+            _VARIANTS[variant] = P
+        return _VARIANTS[variant]
     if _PROG is not None:
         return _PROG
     P = program.Program()
